@@ -233,6 +233,53 @@ func c15PadShapes(thorough bool) []c15Shape {
 	return out
 }
 
+// c15ReqTrailShapes: the request ends with a trailer block of its own (the fourth kind of header block a stream
+// can carry): after 0-2 DATA frames, as HEADERS alone or HEADERS + CONTINUATION, before the response headers
+// (the usual order for a request that is complete before the server answers) or after them (Bidi), with a
+// full response, a trailers-only response, a refused first attempt, resets; one call without test name.
+func c15ReqTrailShapes(thorough bool) []c15Shape {
+	out := []c15Shape{
+		{Named: true, NReq: 1, NResp: 1, ReqTrail: 1},
+		{Named: true, NReq: 1, NResp: 1, Bidi: true, ReqTrail: 1},
+		{Named: true, NReq: 0, NResp: 1, ReqTrail: 2},
+		{Named: true, NReq: 2, Resp: 1, ReqTrail: 1},
+		{Named: true, NReq: 1, NResp: 1, ReqTrail: 1, Variant: "refused-retry"},
+		{Named: false, NReq: 1, NResp: 1, ReqTrail: 1},
+	}
+	if thorough {
+		for rt := 1; rt <= 2; rt++ {
+			for nreq := 0; nreq <= 2; nreq++ {
+				out = append(out,
+					c15Shape{Named: true, NReq: nreq, NResp: 2, ReqTrail: rt},
+					c15Shape{Named: true, NReq: nreq, NResp: 0, Bidi: true, ReqTrail: rt},
+					c15Shape{Named: true, NReq: nreq, Resp: 1, RespCont: true, ReqTrail: rt},
+				)
+			}
+			out = append(out,
+				c15Shape{Named: true, Cont: true, ContN: 2, NReq: 1, NResp: 1, RespHdrCont: 1, RespCont: true, ReqTrail: rt},
+				c15Shape{Named: true, NReq: 1, ReqEnd: 1, NResp: 1, ReqTrail: rt},
+				c15Shape{Named: true, NReq: 1, NResp: 1, ReqTrail: rt, Variant: "rsts-mid"},
+				c15Shape{Named: true, NReq: 1, ReqTrail: rt, Variant: "rsts-early"},
+				c15Shape{Named: true, NReq: 1, NResp: 1, Bidi: true, ReqTrail: rt, Variant: "rstc-mid"},
+				c15Shape{Named: true, NReq: 1, ReqPieces: 3, NResp: 1, ReqTrail: rt},
+				c15Shape{Named: false, NReq: 0, Resp: 1, ReqTrail: rt},
+			)
+		}
+	}
+	return out
+}
+
+func c15ReqTrailPartners(thorough bool) []c15Shape {
+	out := []c15Shape{
+		{Named: true, NReq: 1, NResp: 1},
+		{Named: false, NReq: 1, NResp: 1},
+	}
+	if thorough {
+		out = append(out, c15Shape{Named: true, NReq: 1, NResp: 0, RespCont: true}, c15Shape{Named: true, NReq: 1, NResp: 1, Variant: "rstc-mid"})
+	}
+	return out
+}
+
 func c15PadPartners(thorough bool) []c15Shape {
 	out := []c15Shape{{Named: true, NReq: 1, NResp: 1}}
 	if thorough {
@@ -477,6 +524,25 @@ func c15Pairs(thorough bool) []c15Pair {
 	if thorough {
 		add(pads[2], pads[5])
 		add(pads[7], pads[6])
+	}
+	endFamily()
+	// request trailers: every such shape with every partner (both orders), the quick ones with each other
+	rts := c15ReqTrailShapes(thorough)
+	for _, x := range rts {
+		for _, y := range c15ReqTrailPartners(thorough) {
+			add(x, y)
+			add(y, x)
+		}
+	}
+	add(rts[0], rts[1])
+	add(rts[1], rts[0])
+	add(rts[2], rts[0])
+	if thorough {
+		for _, x := range rts[:6] {
+			for _, y := range rts[:6] {
+				add(x, y)
+			}
+		}
 	}
 	endFamily()
 	// HPACK dynamic-table-size histories
